@@ -536,6 +536,7 @@ class SelectInfo(object):
         self.columns = []        # list of (expr-node, alias)
         self.source = None       # ("table", name, alias) | ("sub", node, alias)
         self.joins = []          # [(table, on-node)]
+        self.join_aliases = []   # alias of each join (== table name when none / rewritten)
         self.where = None
         self.order = []          # [expr-node]
         self.direction = None
@@ -566,9 +567,11 @@ def select_info(node, allow_limit=False):
             si.source = ("sub", sub, alias)
         elif ch.data == "join":
             # INNER JOIN == JOIN; an alias has been rewritten to the table name by _normalise_aliases
-            name = [str(x) for x in ch.children if isinstance(x, lark.Token) and x.type == "NAME"][0]
+            names_ = [str(x) for x in ch.children if isinstance(x, lark.Token) and x.type == "NAME"]
+            name = names_[0]
             on = [x for x in ch.children if isinstance(x, lark.Tree)][0]
             si.joins.append((name, on))
+            si.join_aliases.append(names_[-1])
         elif ch.data == "where":
             si.where = [x for x in ch.children if isinstance(x, lark.Tree)][0]
         elif ch.data == "order":
